@@ -1,7 +1,12 @@
-"""D71-D73 (all fixed), found while triaging the round-6 seeds.  Every assert fails on the tree before the named repair.
+"""D71-D78 (all fixed), found while triaging the round-6 seeds or reported by the round-6 agents about the unchanged tree.  Every assert fails on the tree before the named repair.
 D71 C20  monitors._load read support files by module name: an already imported module of that name shadowed the file (repair 5a846ca)
 D72 C19  scenario.update with the stored values an ndarray (after load(<ndarray>)) broadcast-added or raised (repair 89777ca)
 D73 C07  re-decorating the objective under strict ranges drew random numbers for members inside the box (repair 7c43727)
+D74 C16  suppress(clip=False) truncated the spread for integer input (repair 8c42083)
+D75 C16  unique deleted 'type' from the dict it was given (repair 33f9bd3)
+D76 C12  names restored marker by marker: _1 inside a_1 / inside _10 (repair b5689a7)
+D77 C20  the extension pattern \\.py*.$ also stripped .pt (repair 3e1c53f)
+D78 C08  integer-valued sampled starting points left integer population rows (repair 1b1c45f)
 """
 import os
 import random
@@ -49,4 +54,35 @@ def run(register_every_step):
 
 
 assert run(True) == run(False)
+
+# D74, D75
+from mystic.tools import suppress
+from mystic.constraints import unique
+assert suppress([10, 1, 3], tol=2, clip=False) == [10.5, 0.0, 3.5]
+d = {'min': 0, 'max': 11, 'type': int}
+random.seed(1); unique([1, 2, 3, 1, 2, 4], d)
+assert d == {'min': 0, 'max': 11, 'type': int}
+
+# D76
+from mystic.symbolic import replace_variables, solve
+assert replace_variables('b + k', list('abcdefghijk'), list('ABCDEFGHIJK')) == 'B + K'
+assert solve('p = a_1 + 2*q', variables=['p', 'q', 'a_1'], target=['q']).strip() == 'q = p/2 - a_1/2'
+
+# D77
+from mystic.monitors import LoggingMonitor
+from mystic.munge import read_history
+tmp = tempfile.mkdtemp()
+try:
+    f = os.path.join(tmp, 'run.pt')
+    lm = LoggingMonitor(1, f, new=True); lm([1., 2.], 3.); lm([1.5, 2.], 2.5)
+    assert read_history(f)[1] == [3.0, 2.5]
+finally:
+    shutil.rmtree(tmp)
+
+# D78
+from mystic.math import Distribution
+random_seed(5)
+s = DifferentialEvolutionSolver(3, 8); s.SetSampledInitialPoints(Distribution(np.random.randint, 0, 4)); s.SetEvaluationLimits(5, 1000)
+s.Solve(rosen)
+assert all(abs(rosen(p) - e) < 1e-12 for p, e in zip(s.population, s.popEnergy))
 print('ok')
